@@ -96,19 +96,16 @@ impl SchedulerCore {
     /// If a queue is idle and has pending jobs, places it in the schedule
     ///
     pub (super) fn reschedule_queue(&self, queue: &Arc<JobQueue>, core: Arc<SchedulerCore>) {
-        let reschedule = {
+        let (reschedule, wake_blocked) = {
             let mut core = queue.core.lock().expect("JobQueue core lock");
 
-            // Signal any waiting condition variables
-            core.wake_blocked.iter_mut()
-                .for_each(|cond_var| {
-                    if let Some(cond_var) = cond_var.upgrade() {
-                        cond_var.notify_one();
-                    }
-                });
-            core.wake_blocked.retain(|cond_var| cond_var.strong_count() > 0);
+            // Collect any waiting condition variables (these are signalled once the core lock has been released)
+            let wake_blocked = core.wake_blocked.iter()
+                .filter_map(|(cond_var, ready)| Some((cond_var.upgrade()?, ready.upgrade()?)))
+                .collect::<Vec<_>>();
+            core.wake_blocked.retain(|(cond_var, _)| cond_var.strong_count() > 0);
 
-            match core.state {
+            let reschedule = match core.state {
                 QueueState::Idle => {
                     // Schedule a thread to restart the queue if more things were queued
                     if core.queue.len() > 0 {
@@ -131,8 +128,17 @@ impl SchedulerCore {
                     // Not scheduled
                     false
                 }
-            }
+            };
+
+            (reschedule, wake_blocked)
         };
+
+        // Signal the threads blocked in sync on this queue. The lock the waiting thread holds while it decides to wait is taken
+        // here so that the notification cannot arrive between that thread failing to claim the queue and starting to wait
+        for (cond_var, ready) in wake_blocked {
+            let _ready = ready.lock();
+            cond_var.notify_one();
+        }
 
         if reschedule {
             self.schedule.lock().expect("Schedule lock").push_back(queue.clone());
